@@ -187,6 +187,69 @@ def binop_sel(i: int, j: int) -> bool:
     return H.done(ok)
 
 
+# strings whose ordering/equality differ under normalisation, case folding or locale collation (code-point order is the reference)
+SCORPUS = ['', 'a', 'ab', 'b', 'B', '\u00e9', 'e\u0301', 'f', '\u00df', 'ss', '\ufb01', 'fi', '\uff21', 'A', 'z', '\U0001f600']
+SBOX = [(v,) for v in SCORPUS]
+
+
+def binop_sel_str(i: int, j: int) -> bool:
+    """
+    pre: 0 <= i < len(SCORPUS) and 0 <= j < len(SCORPUS)
+    post: _
+    """
+    a, b = SBOX[i][0], SBOX[j][0]
+    with H.NoTracing():
+        ok = outcomes_agree(yq.outcome('$a %s $b' % OP, a=a, b=b), ref_binop(OP, a, b))
+    return H.done(ok)
+
+
+# values that are equal across kinds (0 == 0.0 == False, 1 == 1.0 == True): an operand accepted or rejected earlier must not
+# decide the fate of a later, equal operand of another kind (the evaluation history of the process is part of the input)
+HVALS = [0, 0.0, -0.0, False, 1, 1.0, True, 2, 2.0, None, '', '1']
+HBOX = [(v,) for v in HVALS]
+HTEXTS = ['$a + 2', '2 - $a', '$a * 3', '- $a', '$a < 5', "'ab' * $a", '3 / ($a + 7)']
+
+
+def history_pair(i: int, j: int) -> bool:
+    """
+    pre: 0 <= i < len(HVALS) and 0 <= j < len(HVALS)
+    post: _
+    """
+    x, y = HBOX[i][0], HBOX[j][0]
+    with H.NoTracing():
+        ok = True
+        for v in (x, y, x):
+            for text in HTEXTS:
+                ok = ok and outcomes_agree(yq.outcome(text, a=v), ref_text(text, v))
+    return H.done(ok)
+
+
+def ref_text(text, v):
+    def chain(*steps):
+        val = None
+        for st in steps:
+            r = st(val)
+            if r[0] != 'ok':
+                return r
+            val = r[1]
+        return ('ok', val)
+    if text == '$a + 2':
+        return ref_binop('+', v, 2)
+    if text == '2 - $a':
+        return ref_binop('-', 2, v)
+    if text == '$a * 3':
+        return ref_binop('*', v, 3)
+    if text == '- $a':
+        return ('ok', -v) if isnum(v) else ('nomatch',)
+    if text == '$a < 5':
+        return ref_binop('<', v, 5)
+    if text == "'ab' * $a":
+        return ref_binop('*', 'ab', v)
+    if text == '3 / ($a + 7)':
+        return chain(lambda _: ref_binop('+', v, 7), lambda s: ref_binop('/', 3, s))
+    raise ValueError(text)
+
+
 def probe_bool_repetition(a: bool, b: str, swap: bool) -> bool:
     """
     pre: len(b) <= 2
@@ -313,6 +376,13 @@ def conditions(tier, seed):
         out.append({'name': 'binop_sel[%s]' % op, 'func': 'binop_sel', 'timeout': 200, 'param': {'op': op},
                     'bounds': 'a,b selected by symbolic indices from the %d-value boundary corpus (ints and floats); '
                               'each path is one concrete evaluation' % len(CORPUS)})
+    for op in ('<', '<=', '>', '>=', '=', '!=', '+'):
+        out.append({'name': 'binop_sel_str[%s]' % op, 'func': 'binop_sel_str', 'timeout': 200, 'param': {'op': op},
+                    'bounds': 'a,b selected by symbolic indices from %d strings (empty, multi-code-point, combining vs precomposed, '
+                              'case pairs, ligatures, astral); code-point order is the reference' % len(SCORPUS)})
+    out.append({'name': 'history_pair', 'func': 'history_pair', 'timeout': 200,
+                'bounds': 'ordered pairs of %d operands that are equal across kinds (0, 0.0, -0.0, false, 1, 1.0, true ...) evaluated '
+                          'one after the other in one process under %d operator expressions (selectors; each path one concrete history)' % (len(HVALS), len(HTEXTS))})
     for op in ['+', '-', 'not']:
         out.append({'name': 'unop[%s]' % op, 'func': 'unop', 'timeout': 60, 'param': {'op': op},
                     'bounds': 'a in None|bool|int|float|str(len<=2)'})
@@ -390,6 +460,21 @@ def replay(cond, args):
     desc = ''
     if cond['func'] == 'binop':
         desc = '$a %s $b with a=%r b=%r: yaql %r, reference %r' % (op, a, b, yq.outcome('$a %s $b' % op, a=a, b=b), ref_binop(op, a, b))
+    elif cond['func'] == 'binop_sel_str':
+        a, b = SCORPUS[vals['i']], SCORPUS[vals['j']]
+        desc = '$a %s $b with a=%r b=%r: yaql %r, reference (code-point order) %r' % (op, a, b, yq.outcome('$a %s $b' % op, a=a, b=b), ref_binop(op, a, b))
+    elif cond['func'] == 'binop_sel':
+        a, b = CORPUS[vals['i']], CORPUS[vals['j']]
+        desc = '$a %s $b with a=%r b=%r: yaql %r, reference %r' % (op, a, b, yq.outcome('$a %s $b' % op, a=a, b=b), ref_binop(op, a, b))
+    elif cond['func'] == 'history_pair':
+        x, y = HVALS[vals['i']], HVALS[vals['j']]
+        bad = []
+        for v in (x, y, x):
+            for text in HTEXTS:
+                g, e = yq.outcome(text, a=v), ref_text(text, v)
+                if not outcomes_agree(g, e):
+                    bad.append('%s with a=%r gives %r, reference %r' % (text, v, g, e))
+        desc = 'evaluating with a=%r, then a=%r, then a=%r again in one process: %s' % (x, y, x, '; '.join(bad[:3]))
     elif key:
         desc = '%r * %r is accepted (a boolean is taken as a repetition count)' % (a, b)
     else:
